@@ -106,6 +106,7 @@ func ruleAddVar(c *Ctx, r *Repo) {
 		return
 	}
 	c.Func(funcKey(tp, fd))
+	ruleReplacementMemoKey(c, r, "R13.3")
 	var repl types.Object
 	for _, f := range fd.Type.Params.List {
 		for _, n := range f.Names {
@@ -627,4 +628,109 @@ func keyHelper(info *types.Info, g *ast.FuncDecl) bool {
 		return false
 	}
 	return typeIs(info.TypeOf(g.Type.Params.List[0].Type), "go/types.Type")
+}
+
+// ruleReplacementMemoKey: whatever AddVar (or a helper it calls) remembers about a resolved replacement is a
+// function of the replacement, so a map it stores into on the replacement arm is keyed by both
+// replacement.PkgPath and replacement.TypeName (or by the ReplaceType value itself). A memo keyed by the type
+// being replaced hands the first mock's replacement to every later mock of the output file that replaces the
+// same type with something else (round 7: a configs-entry override lost to the package-level setting).
+func ruleReplacementMemoKey(c *Ctx, r *Repo, rule string) {
+	tp := r.Pkg("template")
+	if tp == nil {
+		return
+	}
+	info := tp.TypesInfo
+	fd := FuncDecl(tp, "MethodScope.AddVar")
+	if fd == nil {
+		return
+	}
+	n := 0
+	for _, g := range familyOf(tp, fd) {
+		var repl types.Object
+		for _, f := range g.Type.Params.List {
+			for _, nm := range f.Names {
+				if strings.HasSuffix(types.ExprString(f.Type), "ReplaceType") {
+					repl = info.Defs[nm]
+				}
+			}
+		}
+		if repl == nil {
+			continue
+		}
+		// single-definition locals, to read a key through `cacheKey := ...`
+		defs := map[types.Object]ast.Expr{}
+		ndef := map[types.Object]int{}
+		ast.Inspect(g.Body, func(x ast.Node) bool {
+			if as, ok := x.(*ast.AssignStmt); ok && len(as.Lhs) == len(as.Rhs) {
+				for i, l := range as.Lhs {
+					if id, ok := l.(*ast.Ident); ok {
+						o := info.Defs[id]
+						if o == nil {
+							o = info.Uses[id]
+						}
+						if o != nil {
+							defs[o] = as.Rhs[i]
+							ndef[o]++
+						}
+					}
+				}
+			}
+			return true
+		})
+		mentions := func(e ast.Expr) (pkg, name, whole bool) {
+			var walk func(e ast.Node, depth int)
+			walk = func(e ast.Node, depth int) {
+				ast.Inspect(e, func(m ast.Node) bool {
+					switch y := m.(type) {
+					case *ast.SelectorExpr:
+						if id, ok := ast.Unparen(y.X).(*ast.Ident); ok && info.Uses[id] == repl {
+							switch y.Sel.Name {
+							case "PkgPath":
+								pkg = true
+							case "TypeName":
+								name = true
+							}
+						}
+					case *ast.StarExpr:
+						if id, ok := ast.Unparen(y.X).(*ast.Ident); ok && info.Uses[id] == repl {
+							whole = true
+						}
+					case *ast.Ident:
+						if o := info.Uses[y]; o != nil && o != repl && ndef[o] == 1 && depth < 3 {
+							walk(defs[o], depth+1)
+						}
+					}
+					return true
+				})
+			}
+			walk(e, 0)
+			return
+		}
+		ast.Inspect(g.Body, func(x ast.Node) bool {
+			as, ok := x.(*ast.AssignStmt)
+			if !ok {
+				return true
+			}
+			for _, l := range as.Lhs {
+				ie, ok := ast.Unparen(l).(*ast.IndexExpr)
+				if !ok {
+					continue
+				}
+				if _, isMap := info.TypeOf(ie.X).Underlying().(*types.Map); !isMap {
+					continue
+				}
+				if _, isSel := ast.Unparen(ie.X).(*ast.SelectorExpr); !isSel {
+					continue // a local map lives for one call only
+				}
+				n++
+				pkg, name, whole := mentions(ie.Index)
+				c.Check(whole || pkg && name, rule, "AddVar|memo-key|"+types.ExprString(ie.X), r.Pos(as.Pos()), "what is remembered about a replacement is keyed by the replacement", fmt.Sprintf("%s stores into %s under the key %s, which does not contain both replacement.PkgPath and replacement.TypeName: a later variable with the same key and a different replacement (another mock of the same output file, configured differently) is given the remembered one", g.Name.Name, types.ExprString(ie.X), types.ExprString(ie.Index)))
+			}
+			return true
+		})
+	}
+	if n == 0 {
+		c.OK(rule, "AddVar|memo-key|none", r.Pos(fd.Pos()), "AddVar keeps no memo of resolved replacements")
+	}
 }
